@@ -120,14 +120,6 @@ Proof.
   rewrite (G m Hm). rewrite <- (G [] (fun H => H)). reflexivity.
 Qed.
 
-Lemma join_snoc dir name : dir <> [] -> join (dir ++ [name]) = join dir ++ SLASH :: name.
-Proof.
-  induction dir as [|c r IH]; intros H; [congruence|]. destruct r as [|c2 r2]; [reflexivity|].
-  change (join ((c :: c2 :: r2) ++ [name])) with (c ++ SLASH :: join ((c2 :: r2) ++ [name])).
-  rewrite IH by discriminate. change (join (c :: c2 :: r2)) with (c ++ SLASH :: join (c2 :: r2)).
-  rewrite <- app_assoc. reflexivity.
-Qed.
-
 (* every marker string is '/' followed by characters other than '.' *)
 Lemma infix_shape g l m : g <> GNoOp -> infix g l = Some m -> exists m', m = SLASH :: m' /\ ~ In DOT m'.
 Proof.
@@ -157,7 +149,8 @@ Proof.
   intros Hg Hd Hp H.
   assert (E : localize g l (render (dir ++ [name]) false) =
               match infix g l with None => LErr LUnsupportedLanguage | Some m => LOk (join dir ++ m ++ name) end).
-  { unfold localize. rewrite (parent_and_file_multi dir name false Hd Hp). destruct g; congruence. }
+  { unfold localize in *. rewrite (parent_and_file_multi_gen dir name false Hd Hp) in *.
+    destruct (andb (valid_str (join dir)) (valid_str name)); destruct g; congruence. }
   rewrite E in H. destruct (infix g l) as [m|] eqn:I; [|discriminate]. injection H as <-.
   destruct (infix_shape g l m Hg I) as (m' & -> & Hm').
   unfold render. rewrite app_nil_r, join_snoc by exact Hd. cbn [app]. apply is_compressed_marker. exact Hm'.
